@@ -152,8 +152,11 @@ def check(ctx):
                 truth[m] = np.tensordot(c, T, axes=(0, 0))
             f = forces_from_fc(truth, d)
             for compact in (True, False):
-                for bs in ((100,) if ctx.quick else (1, 3, 100)):
-                    for nb in nbatch_settings:
+                # (snapshot batch size, forced atom batches); n // 2 with two atom batches: two or three snapshot batches, two of them of
+                # equal length, inside an atom-batch loop (R15-L3: products cached across atom batches under the batch LENGTH)
+                settings = [(bs, nb) for bs in ((100,) if ctx.quick else (1, 3, 100)) for nb in nbatch_settings] + [(max(1, n // 2), 2)]
+                for bs, nb in settings:
+                    if True:
                         if nb is not None:
                             os.environ["SYMFC_VERIF_SOLVER_NBATCH"] = str(min(nb, P.N))
                         try:
